@@ -356,11 +356,6 @@ def c10(run):
         "constant in between; plus random projects. Non-trivial = distinct scenario in which some method or the interface is oneway.")
 
 
-def selftest():
-    print("selftest: not implemented yet")
-    return 0
-
-
 # --------------------------------------------------------------------------------------
 # C12 / C13 / C11 / C01: the store level
 # --------------------------------------------------------------------------------------
@@ -927,3 +922,202 @@ def c14(run):
                 "extent of the garbage member (first garbage token .. terminator). Non-trivial = distinct scenario with a tree and "
                 "at least one diagnostic.")
     return judge(run, nt_recovered, chunk_events=3000)
+
+
+# --------------------------------------------------------------------------------------
+# self-test: the binding is real - corrupt one logged field / drop one event and the trace spec must object
+# --------------------------------------------------------------------------------------
+def selftest():
+    import copy
+    T0[0] = time.time()
+    C.build_harness()
+    rng = random.Random(7)
+    wdir = C.fresh_workdir("selftest")
+    main = ("package p.q;\nimport p.q.B;\nimport zz.Unused;\n/** Doc of A */\ninterface A {\n"
+            "  void f(in B b, int[] x, int y);\n  oneway void g(out String s);\n  const int K = 1;\n  List<Map<String,B[]>> h();\n}\n")
+    other = "package p.q;\nparcelable B {\n  int x;\n}\n"
+    g = D.RichGen(rng, maxdepth=2)
+    toks = g.document("interface")
+    pcs = D.layout(toks, rng, mode="spaces", docs=0.5, unicode_ws=False, nl="\n")
+    bad = mutate_tokens(toks, rng, 2)
+    pcs_bad = D.layout(bad, rng, mode="spaces")
+    base = {"sid": "", "src": "selftest", "ops": [
+        {"op": "new", "i": 1},
+        {"op": "add", "i": 1, "id": "a", "text": main},
+        {"op": "add", "i": 1, "id": "b", "text": other},
+        {"op": "validate", "i": 1},
+        {"op": "validate", "i": 1, "detail": "digest"},
+        {"op": "walk", "i": 1, "id": "a", "filter": "all"},
+        {"op": "finds", "i": 1, "id": "a", "filter": "all", "preds": [{"kind": "class", "c": "pkg"}, {"kind": "nth", "k": 4}]},
+        {"op": "lookups", "i": 1, "id": "a", "filter": "all", "positions": [[1, 9], [2, 10], [6, 8], [50, 1]]},
+        {"op": "roundtrip", "i": 1, "id": "a", "stage": "validated"},
+        {"op": "add", "i": 1, "id": "d", "text": D.text_of(pcs), "pieces": pcs, "parsed": True},
+        {"op": "add", "i": 1, "id": "e", "text": D.text_of(pcs_bad), "pieces": pcs_bad, "parsed": True},
+        {"op": "remove", "i": 1, "id": "d"},
+        {"op": "remove", "i": 1, "id": "e"},
+        {"op": "validate", "i": 1, "detail": "digest"},
+    ]}
+    base["sid"] = "base"
+    rec = recovery_scenario([D.T(x) for x in ("package", )] + [D.T("p", "IDENT"), D.T(";"), D.T("interface"), D.T("I", "IDENT"), D.T("{"),
+                             D.T("void"), D.T("a", "IDENT"), D.T("("), D.T(")"), D.T(";")],
+                            [D.T("("), D.T("int")], [D.T(";"), D.T("void"), D.T("b", "IDENT"), D.T("("), D.T(")"), D.T(";"), D.T("}")],
+                            rng, "spaces", "selftest-rec")
+    rec["sid"] = "rec"
+    events = C.run_harness([base, rec], wdir)
+    ev_base = [e for e in events if e["sid"] == "base"]
+    ev_rec = [e for e in events if e["sid"] == "rec"]
+
+    def find(evs, kind, nth=0):
+        return [i for i, e in enumerate(evs) if e["ev"] == kind][nth]
+
+    def obs_a(e):
+        return next(o for o in e["obs"] if o["id"] == "a")
+
+    corruptions = []
+
+    def corr(name, prop, which, fn):
+        corruptions.append((name, prop, which, fn))
+
+    def c_rk(evs):
+        o = obs_a(evs[find(evs, "validate")])
+        n = next(n for n in o["nodes"] if n["c"] == "type" and n["rk"] and n["rk"][0] == "item")
+        n["rk"] = ["item", "interface", n["rk"][2]]
+    corr("resolved kind flipped", "C05", "base", c_rk)
+
+    def c_drop_diag(tag, prop):
+        def fn(evs):
+            o = obs_a(evs[find(evs, "validate")])
+            k = next(i for i, d in enumerate(o["diags"]) if d["tag"] == tag)
+            del o["diags"][k]
+        corr(f"diagnostic {tag} removed", prop, "base", fn)
+    c_drop_diag("unresolved_import", "C06")
+    c_drop_diag("missing_dir", "C07")
+    c_drop_diag("oneway_dir", "C07")
+
+    def c_dup_diag(evs):
+        o = obs_a(evs[find(evs, "validate")])
+        d = next(d for d in o["diags"] if d["tag"] == "missing_dir")
+        o["diags"].append(copy.deepcopy(d))
+    corr("diagnostic duplicated (and out of order)", "C07", "base", c_dup_diag)
+
+    def c_swap(evs):
+        o = obs_a(evs[find(evs, "validate")])
+        o["diags"][0], o["diags"][-1] = o["diags"][-1], o["diags"][0]
+    corr("diagnostics swapped", "C11", "base", c_swap)
+
+    def c_keys(evs):
+        evs[find(evs, "validate")]["keys"].pop()
+    corr("a result key missing", "C01", "base", c_keys)
+
+    def c_panic(evs):
+        e = evs[find(evs, "add", 1)]
+        e["out"] = "panic"
+    corr("a call that panicked", "C01", "base", c_panic)
+
+    def c_dig(evs):
+        e = evs[find(evs, "validate", 1)]
+        e["dig"]["a"] = "0" * 16
+        e["sdig"]["a"] = "0" * 16
+    corr("second validation differs", "C12", "base", c_dig)
+
+    def c_walk(evs):
+        e = evs[find(evs, "walk")]
+        e["syms"][3], e["syms"][4] = e["syms"][4], e["syms"][3]
+    corr("walk order swapped", "C15", "base", c_walk)
+
+    def c_find(evs):
+        evs[find(evs, "finds")]["found"][0] = []
+    corr("package not found", "C15", "base", c_find)
+
+    def c_lookup(evs):
+        e = evs[find(evs, "lookups")]
+        e["found"][0] = []
+    corr("lookup answer removed", "C16", "base", c_lookup)
+
+    def c_qname(evs):
+        e = evs[find(evs, "walk")]
+        s = next(x for x in e["syms"] if x["c"] == "item")
+        s["qname"] = ["p.qA"]
+    corr("qualified name of the item", "C17", "base", c_qname)
+
+    def c_rt(evs):
+        e = evs[find(evs, "roundtrip")]
+        m = next(n for n in e["after"] if n["c"] == "method" and n["ow"])
+        m["ow"] = False
+    corr("round trip lost a oneway flag", "C19", "base", c_rt)
+
+    def c_sym(evs):
+        e = evs[find(evs, "add", 2)]
+        n = next(n for n in e["pobs"]["nodes"] if n["c"] in ("method", "const"))
+        n["sym"][0] += 1
+        n["sym"][3] += 1
+    corr("name range shifted by one", "C04", "base", c_sym)
+
+    def c_name(evs):
+        e = evs[find(evs, "add", 2)]
+        n = next(n for n in e["pobs"]["nodes"] if n["c"] in ("method", "const"))
+        n["n"] = n["n"] + "x"
+    corr("member name altered", "C02", "base", c_name)
+
+    def c_doc(evs):
+        e = evs[find(evs, "add", 2)]
+        n = next((n for n in e["pobs"]["nodes"] if n["doc"]), None) or e["pobs"]["nodes"][-1]
+        n["doc"] = ["something else"] if not n["doc"] else [n["doc"][0] + " x"]
+    corr("documentation altered", "C18", "base", c_doc)
+
+    def c_verdict(evs):
+        e = evs[find(evs, "add", 3)]
+        e["pobs"]["diags"] = []
+        e["expected"] = []
+    corr("malformed document reported clean", "C03", "base", c_verdict)
+
+    def c_words(evs):
+        e = evs[find(evs, "add", 3)]
+        d = next(d for d in e["pobs"]["diags"] if d["tag"] == "syntax" and (d["words"] or d["quoted"]))
+        d["words"].append("VOID" if "VOID" not in d["words"] else "ENUM")
+    corr("message names a token outside the expectation set", "C20", "base", c_words)
+
+    def c_drop_event(evs):
+        del evs[find(evs, "remove", 1)]
+    corr("one remove event dropped from the trace", "C01", "base", c_drop_event)
+
+    def c_sibling(evs):
+        e = evs[find(evs, "add")]
+        ns = e["pobs"]["nodes"]
+        k = next(i for i, n in enumerate(ns) if n["c"] == "method" and n["n"] == "b")
+        del ns[k:k + 2]
+    corr("a sibling lost by recovery", "C14", "rec", c_sibling)
+
+    def c_outside(evs):
+        e = evs[find(evs, "add")]
+        d = next(d for d in e["pobs"]["diags"] if d["tag"] == "syntax")
+        d["r"] = [0, 7, 1, 1, 1, 8]
+    corr("syntax Error outside the malformed member", "C14", "rec", c_outside)
+
+    trace = list(ev_base) + list(ev_rec)
+    wanted = []
+    for k, (name, prop, which, fn) in enumerate(corruptions):
+        evs = copy.deepcopy(ev_base if which == "base" else ev_rec)
+        sid = f"corrupt-{k}"
+        for e in evs:
+            e["sid"] = sid
+        fn(evs)
+        trace += evs
+        wanted.append((sid, prop, name))
+    fails, _ = C.validate_trace(trace, wdir, chunk_events=10 ** 9)
+    shutil.rmtree(wdir, ignore_errors=True)
+    clean = [f for f in fails if f["sid"] in ("base", "rec") and f["prop"] != "C20"]
+    rc = 0
+    if clean:
+        print("selftest: the uncorrupted trace was NOT accepted:", clean[:3])
+        rc = 2
+    bysid = by_sid(trace)
+    for sid, prop, name in wanted:
+        hit = [f for f in fails if f["sid"] == sid and f["prop"] == prop]
+        # a known finding must not excuse the corrupted event
+        hit = [f for f in hit if not match_known(prop, f, None, bysid.get(sid, []))]
+        print(f"  {'rejected' if hit else 'ACCEPTED (bad)'}  [{prop}] {name}" + (f" -> {hit[0]['why']}" if hit else ""))
+        if not hit:
+            rc = 2
+    print("selftest ok: every corrupted trace was rejected at the corrupted event" if rc == 0 else "selftest FAILED")
+    return rc
